@@ -402,3 +402,48 @@ def run_concurrent_open(seed=0):
         finally:
             shutil.rmtree(tmp, ignore_errors=True)
     return runs, problems
+
+
+def run_columns_kills(seed=0):
+    """the generation of a big shard of CacheColumns (700 entries; one shard, or shards of 300) is killed at several entries in a row, each time in a
+    new process (a real death inside the user function); the processes after that read exactly the values of the pipeline without caches (C12: a
+    crash at any point, any number of times, leaves nothing a later process can take for an entry)"""
+    import subprocess
+    paths.use_repo()
+    os.makedirs(paths.SCRATCH, exist_ok=True)
+    rng = random.Random(seed)
+    problems, runs = [], 0
+    child = os.path.join(os.path.dirname(os.path.abspath(__file__)), 'colkill_child.py')
+    n = 700
+    for kills, shard in [((300, 600), None), ((rng.randrange(10, 690), rng.randrange(10, 690), rng.randrange(10, 690)), rng.choice([None, 300]))]:
+        root = tempfile.mkdtemp(prefix='cv-colkill-', dir=paths.SCRATCH)
+        try:
+            def run(die_at=None):
+                env = dict(os.environ)
+                env.pop('CV_DIE_AT', None)
+                if die_at is not None:
+                    env['CV_DIE_AT'] = str(die_at)
+                return subprocess.run([sys.executable, child, root, str(n), str(shard)], env=env, capture_output=True, text=True, timeout=120)
+            for k in kills:
+                r = run(k)
+                runs += 1
+                if r.returncode not in (17, 0):
+                    problems.append({'msg': f'a process generating the column cache (to be killed at entry {k}) ended with {r.returncode}: {r.stderr[-200:]}'})
+            for name in ('first', 'second'):
+                r = run()
+                runs += 1
+                if r.returncode != 0:
+                    problems.append({'msg': f'after kills at the entries {kills} (shard_size={shard}) the {name} undisturbed process failed: {r.stderr[-200:]}'})
+                    break
+                line = [x for x in r.stdout.splitlines() if x.startswith('VALUES ')]
+                values = json.loads(line[0][7:]) if line else []
+                wrong = [i for i in range(n) if i >= len(values) or values[i] != 3 * i + 1]
+                if wrong:
+                    problems.append({'msg': f'after kills at the entries {kills} (shard_size={shard}) the {name} undisturbed process read {len(wrong)} wrong values, '
+                                            f'e.g. x({wrong[0]}) = {values[wrong[0]] if wrong[0] < len(values) else None} instead of {3 * wrong[0] + 1}'})
+                    break
+        except Exception as e:
+            problems.append({'msg': 'columns kills scenario raised ' + type(e).__name__ + ': ' + str(e)[:150]})
+        finally:
+            shutil.rmtree(root, ignore_errors=True)
+    return runs, problems
